@@ -12,16 +12,21 @@ MANIFEST_ENTRY = {
  "level_claimed": {
   "category": "proof",
   "text": "Theorems in coq/Properties/C13.v about the executable model coq/Model/Lexer.v of compiler/src/lex/lexer.rs, "
-          "for all input strings and all Unicode classifications of non-ASCII characters: whenever lex succeeds the token "
-          "texts concatenated reproduce the input (C13_lossless), no token is empty (C13_no_empty_token), lex never panics "
-          "and never runs out of fuel (C13_lex_no_panic, C13_lex_terminates), every token carries the line/column of its "
-          "first character for inputs without carriage return and form feed (C13_positions_exact; form feed is known "
-          "finding C13-K1 with witness lemma C13_K1_refuted), operator tokens are a spelling of their type in the generated "
-          "operator table and no longer spelling is a prefix of the remaining input (C13_longest_match), and a blank line "
-          "after any run of trailing spaces/tabs lies in a Subexpression token (C13_blank_line_separates). The model is tied "
-          "to the Rust lexer by token-for-token correspondence (type, text, line, column, error class and position) on all "
-          "strings up to a length bound over a reduced alphabet, all pairs of operator spellings and seeded random strings, "
-          "and an independent Python oracle plus the extracted Coq spec check the implementation's tokens directly.",
+          "for all input strings and all Unicode classifications of non-ASCII characters, proved by an invariant over the "
+          "character fold: whenever lex succeeds the token texts concatenated reproduce the input (C13_lossless; hence a "
+          "character that cannot start or continue a token makes lex fail), no token is empty (C13_no_empty_token), lex never "
+          "panics and never runs out of fuel (C13_lex_no_panic, C13_lex_terminates), every token carries the line/column of "
+          "its first character for inputs without carriage return and form feed (C13_positions_exact; form feed is known "
+          "finding C13-K1 with witness theorem C13_K1_refuted), a token of an operator type is spelled as the generated "
+          "operator table says and no longer spelling is a prefix of the remaining input (C13_longest_match), and the first "
+          "line feed of every blank line lies in a Subexpression token unless it belongs to a char/byte list literal or ends "
+          "a line annotation, whatever precedes it (C13_blank_lines_separate, C13_blank_line_separates). Partial: the "
+          "blank-line clause in DESIGN's wording with a hypothesis on the prefix (C13_blank_line_full_statement) and "
+          "maximal-run classification of identifier/number/whitespace tokens are stated or checked by the oracle but not "
+          "proved. The model is tied to the Rust lexer by token-for-token correspondence (type, text, line, column, error "
+          "class and position) on all strings up to a length bound over a reduced alphabet, all pairs of operator spellings "
+          "and seeded random strings; an independent Python oracle and the extracted Coq spec check the implementation's "
+          "tokens directly.",
   "design_ref": "DESIGN.md section 8 C13"
  },
  "level_note": "Trusted: Coq kernel; the operator table translator tools/sync/tokens.py; extraction (ExtrOcamlBasic only); "
@@ -351,6 +356,16 @@ def run(tier, seed):
     v.coverage.update(vplib.proof_coverage(
         pr, "make -C coq Properties/C13.vo && coqc Properties/C13.v (Print Assumptions) && tools/props/c13.py correspondence + oracle", TRUSTED))
     v.coverage["tables_regenerated"] = sy.get("changed", [])
+    v.coverage["theorem_status"] = {
+        "full": ["C13_lossless", "C13_no_empty_token", "C13_lex_no_panic", "C13_lex_terminates", "C13_longest_match",
+                 "C13_blank_lines_separate", "C13_blank_line_separates"],
+        "full_outside_known_finding": ["C13_positions_exact (forall s, ~ Known_C13_K1 s -> no CR -> ...)"],
+        "refuted_witness": ["C13_K1_refuted (5 FF 6)"],
+        "stated_not_proved": ["C13_blank_line_full_statement (DESIGN.md wording: hypothesis `lex x = Ok` on the prefix)",
+                              "right_maximal (Spec/LexSpec.v): identifier/number/annotation/whitespace tokens are maximal runs"],
+        "fixed_in_repo": ["8363728 sticky error", "21813e8 blank line after trailing spaces", "6e3a1f8 '' swallows next char",
+                          "ae66e80 NUL after opening quote", "0f8acb2 positions after multi-line literal"],
+    }
     ok, out = vplib.cargo_build("debug", bins=["lex"])
     if not ok:
         v.tie_failure("harness build failed: " + out[-400:])
